@@ -1,7 +1,7 @@
 """C04 - standard storage idioms are recovered with the right slot, kind and packing.
 
 Monitor: ground-truth layouts are compiled to bytecode in the idioms the lifting passes document (vlib/layoutgen.py),
-analysed by the real one-call entry point under two different hash seeds, and the reported layout is compared with the
+analysed by the real one-call entry point under two different hash seeds and two forced unification fold orders, and the reported layout is compared with the
 ground truth - only on what the property states: an entry at the slot, its kind, mapping nesting depth, 20-byte-ness of
 masked keys/values, packed bit offsets and known widths.
 """
@@ -102,15 +102,15 @@ def strip_public(gt):
     return [{k: v for k, v in var.items() if not k.startswith("_")} for var in gt]
 
 
-def judge(res, gt, code, r1, r2):
+def judge(res, gt, code, r1, r2, more=()):
     res.evaluations += 1
     case = {"ground_truth": strip_public(gt), "modes": [v.get("_mode") for v in gt], "code": code.hex()}
-    for r in (r1, r2):
+    for r in (r1, r2) + tuple(more):
         if r.get("class") in ("timeout", "oom", "harness_error", "crash", "panic"):
             res.inconc("driver:%s" % r.get("class"))
             return
-    if r1.get("class") != "ok" or r2.get("class") != "ok":
-        kinds = sorted({e["kind"] for r in (r1, r2) for e in r.get("errors", [])})
+    if any(r.get("class") != "ok" for r in (r1, r2) + tuple(more)):
+        kinds = sorted({e["kind"] for r in (r1, r2) + tuple(more) for e in r.get("errors", [])})
         if "StoppedByWatchdog" in kinds:
             res.inconc("analysis-stopped-by-budget (C03)")
         else:
@@ -127,10 +127,17 @@ def judge(res, gt, code, r1, r2):
     l2 = {}
     for e in r2["layout"]:
         l2.setdefault(int(e["index"], 16), []).append(e)
+    others = []
+    for r in more:
+        lx = {}
+        for e in r["layout"]:
+            lx.setdefault(int(e["index"], 16), []).append(e)
+        others.append(lx)
     for var in gt:
         s = var["slot"]
         a, b = l1.get(s, []), l2.get(s, [])
-        if json.dumps(a, sort_keys=True) != json.dumps(b, sort_keys=True):
+        views = {json.dumps(x, sort_keys=True) for x in [a, b] + [o.get(s, []) for o in others]}
+        if len(views) > 1:
             res.count("slots_unstable_across_hash_seeds (C02)")
             continue
         bad = check_var(var, a)
@@ -151,10 +158,13 @@ def shard(shard_no, nshards, seed, tier, extra):
         gt = layoutgen.random_ground_truth(rng)
         code = layoutgen.build(gt, rng)
         rs = []
-        for k in range(2):
-            rs.append(d.call({"op": "analyze", "code": code.hex(), "stage": "analyze",
-                              "wd": {"every": 1, "stop_at": BUDGET}, "rand_seed": rng.getrandbits(48)}, timeout=300))
-        judge(res, gt, code, rs[0], rs[1])
+        s0 = rng.getrandbits(48)
+        for sd, fold in ((s0, None), (rng.getrandbits(48), None), (s0, {"mode": "sorted", "seed": 0}), (s0, {"mode": "reversed", "seed": 0})):
+            req = {"op": "analyze", "code": code.hex(), "stage": "analyze", "wd": {"every": 1, "stop_at": BUDGET}, "rand_seed": sd}
+            if fold:
+                req["fold"] = fold
+            rs.append(d.call(req, timeout=300))
+        judge(res, gt, code, rs[0], rs[1], rs[2:])
         if i < 1:
             res.sample({"ground_truth": strip_public(gt), "code": code.hex(), "layout": rs[0].get("layout")})
     d.stop()
@@ -180,13 +190,15 @@ def replay(path):
     d = common.Driver("rel", shim=True)
     rs = [d.call({"op": "analyze", "code": case["code"], "stage": "analyze", "wd": {"every": 1, "stop_at": BUDGET},
                   "rand_seed": k + 1}, timeout=300) for k in range(2)]
+    rs += [d.call({"op": "analyze", "code": case["code"], "stage": "analyze", "wd": {"every": 1, "stop_at": BUDGET},
+                   "rand_seed": 1, "fold": {"mode": m, "seed": 0}}, timeout=300) for m in ("sorted", "reversed")]
     d.stop()
     gt = case["ground_truth"]
     for var, m in zip(gt, case["modes"]):
         var["_mode"] = m
         if "fields" in var:
             var["fields"] = [tuple(f) for f in var["fields"]]
-    judge(res, gt, bytes.fromhex(case["code"]), rs[0], rs[1])
+    judge(res, gt, bytes.fromhex(case["code"]), rs[0], rs[1], rs[2:])
     print(json.dumps(rs[0].get("layout"))[:1500])
     for v in res.violations:
         print("VIOLATION-REPLAY", v["signature"], v["what"])
